@@ -141,35 +141,54 @@ Verdict judge_c11(const Plan &plan, const sim::Shm *shm, const ChildExit &, cons
             }
         }
     }
-    int required = 0, present = 0;
+    int required = 0, present = 0, retention_tolerated = 0;
+    bool rot = plan.cfg["mode"].toString().endsWith("rot");
+    int limitN = rot ? plan.cfg["max_count"].toInt() : 0;
+    std::vector<const Call *> missing, there;
     for (auto &kv : calls) {
         const Call &c = kv.second;
         auto it = pos.find(c.cid);
         size_t n = it == pos.end() ? 0 : it->second.size();
         if (n > 1)
             fail11(v, "duplicate", "record of " + c.text.substr(0, 40) + " appears " + std::to_string(n) + " times");
+        if (n > 0)
+            there.push_back(&c);
         bool must = false;
         if (fatal_invoke >= 0) {
             if (c.cid == fatal_cid)
                 must = true;
             else if (c.ret >= 0 && c.ret < fatal_invoke)
                 must = true;
-        } else if (c.ret >= 0) {
-            must = false; // no fatal in this (minimised) plan: nothing is promised about unflushed data
         }
         if (must) {
             required++;
-            if (n == 0) {
-                std::string what = c.cid == fatal_cid ? "the fatal message" : "a message logged before the fatal one";
-                fail11(v, "fatal-not-flushed",
-                       what + " is not in the log files after the process died: " + c.text.substr(0, 60) + " ("
-                               + plan.cfg["mode"].toString().toStdString() + ")",
-                       std::string("fatal-not-flushed/") + (c.cid == fatal_cid ? "fatal-record" : "earlier-record"));
-            } else {
+            if (n == 0)
+                missing.push_back(&c);
+            else
                 present++;
-            }
         }
     }
+    for (const Call *c : missing) {
+        // The retention limit (N >= 2) legitimately removes whole oldest files: a missing record is
+        // tolerated iff the directory is at its limit and no record that is present was logged
+        // before it (call returned before this one was invoked) - never the fatal record itself.
+        if (c->cid != fatal_cid && limitN >= 2 && (int)segs.size() >= limitN) {
+            bool older_present = false;
+            for (const Call *p : there)
+                if (p->ret >= 0 && c->invoke >= 0 && p->ret < c->invoke)
+                    older_present = true;
+            if (!older_present) {
+                retention_tolerated++;
+                continue;
+            }
+        }
+        std::string what = c->cid == fatal_cid ? "the fatal message" : "a message logged before the fatal one";
+        fail11(v, "fatal-not-flushed",
+               what + " is not in the log files after the process died: " + c->text.substr(0, 60) + " ("
+                       + plan.cfg["mode"].toString().toStdString() + ")",
+               std::string("fatal-not-flushed/") + (c->cid == fatal_cid ? "fatal-record" : "earlier-record"));
+    }
+    v.probes["records_removed_by_retention"] = retention_tolerated;
     // order among the present records: per producer, and real-time precedence
     if (v.ok) {
         std::vector<std::pair<size_t, const Call *>> ordered;
